@@ -132,7 +132,7 @@ def bitstream_events(run, expect=None, n_expected=None):
     return evs, errors, pk
 
 
-def observe_events(key, run=None, dec=None, packets=True, recon=True, extra=None):
+def observe_events(key, run=None, dec=None, packets=True, recon=True, extra=None, dec_errors=True):
     """Events for Observe.tla: one Run ... RunEnd block."""
     out = [{"ev": "Run", "key": key}]
     if run is not None:
@@ -146,7 +146,7 @@ def observe_events(key, run=None, dec=None, packets=True, recon=True, extra=None
         for e in dec["events"]:
             if e["ev"] == "Dec":
                 out.append({"ev": "Obs", "class": "pic", "who": e["who"], "k": e["i"] + e.get("offset", 0), "dig": e["dig"]})
-            elif e["ev"] in ("DecError", "Timeout"):
+            elif e["ev"] in ("DecError", "Timeout") and dec_errors:
                 out.append({"ev": "DecError", "who": e.get("who", "?"), "msg": e.get("msg", "")})   # not an action
     for x in (extra or []):
         out.append(x)
